@@ -7,7 +7,15 @@ import (
 )
 
 func childMain(args []string) {
-	fmt.Fprintln(os.Stderr, "child: not implemented", args)
+	if len(args) == 3 && args[0] == "C05" {
+		c05Child(args[1], args[2])
+		return
+	}
+	if len(args) == 3 && args[0] == "C09" {
+		c09Child(args[1], args[2])
+		return
+	}
+	fmt.Fprintln(os.Stderr, "child: unknown task", args)
 	os.Exit(2)
 }
 
